@@ -279,7 +279,9 @@ func (w *_node) LookupByString(key string) (datamodel.Node, error) {
 			if fval.IsNil() {
 				return datamodel.Null, nil
 			}
-			fval = fval.Elem()
+			if fval.Kind() == reflect.Ptr {
+				fval = fval.Elem()
+			}
 		}
 		if _, ok := typ.ValueType().(*schema.TypeAny); ok {
 			if customConverter := w.cfg.converterFor(typ.ValueType().Name(), fval); customConverter != nil {
@@ -375,8 +377,10 @@ func (w *_node) LookupByIndex(idx int64) (datamodel.Node, error) {
 			if val.IsNil() {
 				return datamodel.Null, nil
 			}
-			// nullable elements are assumed to be pointers
-			val = val.Elem()
+			// nullable elements are pointers, or values of a type that can itself be nil
+			if val.Kind() == reflect.Ptr {
+				val = val.Elem()
+			}
 		}
 		if isAny {
 			// Any always yields a plain datamodel.Node
@@ -1672,7 +1676,9 @@ func (w *_mapIterator) Next() (key, value datamodel.Node, _ error) {
 		if val.IsNil() {
 			return key, datamodel.Null, nil
 		}
-		val = val.Elem() // nullable entries are pointers
+		if val.Kind() == reflect.Ptr { // nullable entries are pointers, or values of a type that can itself be nil
+			val = val.Elem()
+		}
 	}
 	if isAny {
 		// Values holds datamodel.Nodes
@@ -1704,7 +1710,9 @@ func (w *_listIterator) Next() (index int64, value datamodel.Node, _ error) {
 		if val.IsNil() {
 			return idx, datamodel.Null, nil
 		}
-		val = val.Elem() // nullable values are pointers
+		if val.Kind() == reflect.Ptr { // nullable values are pointers, or values of a type that can itself be nil
+			val = val.Elem()
+		}
 	}
 	if _, ok := w.schemaType.ValueType().(*schema.TypeAny); ok {
 		if customConverter := w.cfg.converterFor(w.schemaType.ValueType().Name(), val); customConverter != nil {
